@@ -91,6 +91,7 @@ def run(ctx):
             B = st.get("B")
             real = [run_planner_case({"B": [sorted(r) for r in B], "nl": nl, "merge": m}) for m in (False, True)] if B else []
             ctx.violation({"B": B, "nl": nl, "real": real}, "design-counterexample:CohortsSound", str(st)[:800])
+    models.cohort_pipeline(ctx)
     # (i) the real planner on the same space
     cases = []
     spaces = [(3, 3), (4, 3), (3, 4)] if q else [(4, 4), (5, 3), (3, 5)]
